@@ -964,7 +964,14 @@ fn oracle_c12<T: Reg>(cx: &mut Cx, name: &str, desc: &str, inp: &[u8], fam: &str
 		}
 		// the limit composed with the (non-binding) depth limiter and the counter: same verdict
 		if l <= 2 || l + 1 >= u || cx.rng.chance(1, 4) {
-			for layers in [vec![Layer::Mem(l as usize), Layer::Depth(u32::MAX - 1)], vec![Layer::Count, Layer::Mem(l as usize), Layer::Depth(1000)]] {
+			for layers in [
+				vec![Layer::Mem(l as usize), Layer::Depth(u32::MAX - 1)],
+				vec![Layer::Count, Layer::Mem(l as usize), Layer::Depth(1000)],
+				// two trackers stacked: the binding one inside and outside a non-binding one
+				vec![Layer::Mem(l as usize), Layer::Mem(usize::MAX)],
+				vec![Layer::Mem(usize::MAX), Layer::Mem(l as usize)],
+				vec![Layer::Mem(l as usize + 3), Layer::Count, Layer::Mem(l as usize)],
+			] {
 				let r2 = push_run::<T>(cx, name, desc, inp, known, &layers, fam);
 				let same = match (&rr, &r2) {
 					(RRes::Ok(a, c, _), RRes::Ok(b, d, _)) => a.same(b) && c == d,
@@ -1074,5 +1081,118 @@ pub fn len_cases(cx: &mut Cx) {
 		let us: BTreeSet<()> = if k == 0 { BTreeSet::new() } else { [()].into_iter().collect() };
 		let ul = us.len();
 		one::<BTreeSet<()>>(cx, "BTreeSet<()>", &us, ul);
+	}
+	// the five-byte count class: only collections of elements without memory can be that long
+	for k in [(1usize << 30) - 1, 1 << 30, (1 << 30) + 1, 1 << 31, u32::MAX as usize] {
+		one::<Vec<()>>(cx, "Vec<()>", &vec![(); k], k);
+		one::<VecDeque<()>>(cx, "VecDeque<()>", &VecDeque::from(vec![(); k]), k);
+		one::<Vec<[u32; 0]>>(cx, "Vec<[u32;0]>", &vec![[0u32; 0]; k], k);
+		one::<(Vec<()>, u8)>(cx, "(Vec<()>,u8)", &(vec![(); k], 5), k);
+		one::<(VecDeque<()>, String)>(cx, "(VecDeque<()>,String)", &(VecDeque::from(vec![(); k]), "y".into()), k);
+	}
+	compact_as_cases(cx);
+}
+
+/// C18: skip vs decode for `Compact<T>` of user types that are compact-encoded as an integer and
+/// may refuse the integer (`CompactAs::decode_from` fails), alone and inside containers
+mod pct {
+	use parity_scale_codec::{Compact, CompactAs, Decode, Encode, Error};
+	#[derive(Debug, PartialEq, Clone, Copy, Encode, Decode)]
+	pub struct Pct(pub u8);
+	impl CompactAs for Pct {
+		type As = u8;
+		fn encode_as(&self) -> &u8 {
+			&self.0
+		}
+		fn decode_from(x: u8) -> Result<Self, Error> {
+			if x <= 100 {
+				Ok(Pct(x))
+			} else {
+				Err("percentage above 100".into())
+			}
+		}
+	}
+	impl From<Compact<Pct>> for Pct {
+		fn from(x: Compact<Pct>) -> Pct {
+			x.0
+		}
+	}
+	/// even numbers only, carried as u64
+	#[derive(Debug, PartialEq, Clone, Copy, Encode, Decode)]
+	pub struct Even(pub u64);
+	impl CompactAs for Even {
+		type As = u64;
+		fn encode_as(&self) -> &u64 {
+			&self.0
+		}
+		fn decode_from(x: u64) -> Result<Self, Error> {
+			if x % 2 == 0 {
+				Ok(Even(x))
+			} else {
+				Err("odd".into())
+			}
+		}
+	}
+	impl From<Compact<Even>> for Even {
+		fn from(x: Compact<Even>) -> Even {
+			x.0
+		}
+	}
+	/// derived: never refuses
+	#[derive(Debug, PartialEq, Clone, Copy, Encode, Decode, parity_scale_codec::CompactAs)]
+	pub struct Plain(pub u32);
+}
+fn compact_as_cases(cx: &mut Cx) {
+	use parity_scale_codec::Compact;
+	use pct::*;
+	fn one<T: Decode>(cx: &mut Cx, name: &str, inp: &[u8]) {
+		let d = catch_unwind(AssertUnwindSafe(|| {
+			let mut s = inp;
+			T::decode(&mut s).ok().map(|_| inp.len() - s.len())
+		}));
+		let k = catch_unwind(AssertUnwindSafe(|| {
+			let mut s = inp;
+			T::skip(&mut s).ok().map(|_| inp.len() - s.len())
+		}));
+		cx.stats.bump(match &d {
+			Ok(Some(_)) => "skip-compact-as/decodes",
+			Ok(None) => "skip-compact-as/rejected",
+			Err(_) => "skip-compact-as/panic",
+		});
+		let rp = || format!("{name}\tskip\t{}\tdecode={:?}\tskip={:?}", hex(inp), d.as_ref().ok(), k.as_ref().ok());
+		match (&k, &d) {
+			(Ok(Some(a)), Ok(Some(b))) => cx.oracle.check(a == b, "skip-advance", rp),
+			(Ok(None), Ok(None)) | (Err(_), Err(_)) => cx.oracle.check(true, "skip", rp),
+			_ => cx.oracle.check(false, "skip-verdict", rp),
+		}
+	}
+	let n = if cx.thorough { 4000 } else { 500 };
+	let mut inputs: Vec<Vec<u8>> = vec![vec![]];
+	for b in 0..=255u8 {
+		inputs.push(vec![b]);
+		inputs.push(vec![b, 0x01]);
+		inputs.push(vec![b, 0x03, 0x00]);
+	}
+	for i in 0..n {
+		// canonical compact encodings of small and large numbers, followed by a few bytes
+		let v: u64 = match i % 4 {
+			0 => cx.rng.below(256),
+			1 => cx.rng.below(1 << 16),
+			2 => cx.rng.biased(64) as u64,
+			_ => 99 + cx.rng.below(4),
+		};
+		let mut e = parity_scale_codec::Encode::encode(&Compact(v));
+		let extra = cx.rng.below(4) as usize;
+		e.extend(cx.rng.bytes(extra));
+		inputs.push(e);
+	}
+	for inp in &inputs {
+		one::<Compact<Pct>>(cx, "Compact<Pct>", inp);
+		one::<Compact<Even>>(cx, "Compact<Even>", inp);
+		one::<Compact<Plain>>(cx, "Compact<Plain>", inp);
+		one::<(Compact<Pct>, u8)>(cx, "(Compact<Pct>,u8)", inp);
+		one::<Option<Compact<Even>>>(cx, "Option<Compact<Even>>", inp);
+		one::<[Compact<Pct>; 2]>(cx, "[Compact<Pct>;2]", inp);
+		one::<Vec<Compact<Pct>>>(cx, "Vec<Compact<Pct>>", inp);
 	}
 }
